@@ -18,9 +18,13 @@ META = {
             "experiment.rls/fea x 7 objectives x 2 encodings on shipped and "
             "generated instances; TSP EA/FEA/RLS on shipped (<= 60 cities) "
             "and generated symmetric matrices; the TTP example searches "
-            "(rls, rs, prioritised rls, NSGA-II) on circ4..circ10; the QAP "
+            "(rls, rs, prioritised rls, NSGA-II) on 18 bundled instances "
+            "with 4..12 teams, a third of them with other streak limits "
+            "(home/away minima 1..3, also unequal) and no separation limits "
+            "through the public constructor; the QAP "
             "example searches on the 32 QAPLIB instances with n <= 16; the "
-            "instance-generation CMA-ES with reduced inner budgets; the "
+            "instance-generation CMA-ES with reduced inner budgets and slack "
+            "0..1 (plus 24 further decoded points per run); the "
             "controller-synthesis CMA-ES / surrogate runs on down-scaled "
             "systems. Every configuration is executed twice with the same "
             "seed. A configuration is non-trivial when at least one "
@@ -29,7 +33,8 @@ META = {
     "assumptions": [
         "independent oracles: vf/oracle_bp (feasibility, seven objective "
         "definitions), vf/oracle_tsp (tour length, QAP sum), vf/oracle_ttp "
-        "(feasibility, per-rule error count for complete plans, travel "
+        "(feasibility, per-rule error count for complete plans and - "
+        "without separation limits - for plans with idle days, travel "
         "length), vf/oracle_instgen invariants",
         "for TTP plans with byes, generated instances (hardness is a nested "
         "randomised run) and controller synthesis the logged value is "
